@@ -105,6 +105,14 @@ class ZoneAnalysis:
                             out.append(Source('opaque', callee, [EXC], n, sub, func, "stdlib parser: raises more than its documented error class"))
                         elif isinstance(sub.func, ast.Attribute) and sub.func.attr == 'default_factory':
                             self.exempt.append((func.loc(sub), "default factory call: configuration code, not data-dependent"))
+                        elif isinstance(sub.func, ast.Attribute) and sub.func.attr in ('get', 'pop', 'setdefault', '__getitem__', '__contains__') and sub.args:
+                            # table.get(key): no KeyError, but the key is still hashed
+                            base = nz.expr(sub.func.value, n, bound)
+                            key = nz.expr(sub.args[0], n, bound)
+                            tb = re.match(r'^self\.(\w+)$', base)
+                            if tb and tb.group(1) in self.hashed_tables and not hash_safe(key):
+                                out.append(Source('lookup', f"{base}.{sub.func.attr}({key})", [TYPEERR], n, sub, func,
+                                                  "lookup in a table keyed by data with a key that may be unhashable"))
                     elif isinstance(sub, ast.Subscript) and isinstance(sub.ctx, ast.Load):
                         base = nz.expr(sub.value, n, bound)
                         key = nz.expr(sub.slice, n, bound)
